@@ -158,6 +158,10 @@ _C11 = [
             "a value that is itself a message: lengths add up, the outer view yields bytes that the inner view decodes to the "
             "inner pair", kind="bounded", bound="one level of nesting, one pair each, value <= {VL} bytes", timeout=1500,
             mod="encoder", tiers=("thorough",)),
+    Harness("c11_stable_order_many_pairs", ["C11"], "MessageWrapper::new",
+            "ties keep insertion order beyond the small-slice regime of the standard sorts: {NSORT} pairs, tags cycling 2,1,0 "
+            "(concrete), symbolic one-byte values; emitted tags ascending and values in stable order; emitted length == rough_tlv_len",
+            kind="bounded", bound="{NSORT} pairs, one concrete tag pattern, symbolic values", timeout=1500, mod="encoder"),
     Harness("c11_length_limits_full_domain", ["C11"], "MessageWrapper::compute_len",
             "for value lengths over the FULL usize domain: Err <=> some length > i32::MAX or (header + sum of lengths, computed "
             "without saturation) > i32::MAX; Ok(l) => l is the exact total", kind="bounded",
@@ -169,8 +173,8 @@ ROUGH_TLV = KaniUnit(
     crate="rough_tlv",
     attachments=[("rough_tlv/src/decoder.rs", os.path.join(KC, "rough_tlv_decoder.rs"), "decoder"),
                  ("rough_tlv/src/encoder.rs", os.path.join(KC, "rough_tlv_encoder.rs"), "encoder")],
-    params={"quick": {"L": 20, "U": 6, "LW": 88, "UW": 24, "K": 2, "KR": 1, "VL": 1, "U11": 8},
-            "thorough": {"L": 24, "U": 7, "LW": 136, "UW": 36, "K": 3, "KR": 2, "VL": 2, "U11": 12}},
+    params={"quick": {"L": 20, "U": 6, "LW": 88, "UW": 24, "K": 2, "KR": 1, "VL": 1, "U11": 8, "NSORT": 36, "USORT": 40},
+            "thorough": {"L": 24, "U": 7, "LW": 136, "UW": 36, "K": 3, "KR": 2, "VL": 2, "U11": 12, "NSORT": 66, "USORT": 70}},
     harnesses=_C11 + [
         Harness("c12_new_accepts_exactly", ["C12"], "MessageView::new",
                 "never panics; Ok <=> >= 4 bytes /\\ 8N <= len /\\ offsets non-decreasing /\\ tags non-decreasing "
